@@ -89,6 +89,13 @@ func main() {
 				schema = fam[0]
 			}
 			style := atlab.RandStyle(r)
+			// every few scenarios the application "restarts": a new proxy handle, whose table-metadata cache is
+			// filled by whichever spelling of the table name comes first (Style.Upper varies it) - the key text of a
+			// row must not depend on that
+			style.Upper = r.Intn(2) == 0
+			if i%5 == 4 {
+				lab.Reopen()
+			}
 			t := w.Begin(map[string]interface{}{"i": i, "sc": sc, "schema": schema.Name, "style": style},
 				fmt.Sprintf("cover,schema=%s,lit=%v,explicit=%v", schema.Name, style.Literal, style.Explicit))
 			cover(lab, t, sc, schema, style, canon)
